@@ -220,6 +220,34 @@ func apply(v avfs.VFS, c call) error {
 	return nil
 }
 
+// followsLast: does the call act on what a symbolic link in the last position refers to?
+func followsLast(op string) bool {
+	switch op {
+	case "Remove", "RemoveAll", "Rename", "Link", "Symlink", "Mkdir":
+		return false
+	}
+	return true
+}
+
+// resolved is the path an operand names once symbolic links are resolved: all
+// of them, or (last == false) those of the parent directory only.
+func resolved(v avfs.VFS, p string, last bool) string {
+	if last {
+		r, _ := v.EvalSymlinks(p)
+		return r
+	}
+	d, b := v.Split(p)
+	if b == "" {
+		r, _ := v.EvalSymlinks(p)
+		return r
+	}
+	r, err := v.EvalSymlinks(d)
+	if err != nil {
+		return ""
+	}
+	return v.Join(r, b)
+}
+
 // step performs one call and asserts I1-I5.
 func step(v avfs.VFS, kind int, c call) {
 	label := hx.KindName(kind) + "|" + c.op + "|" + sysx.Kind(sysx.ImplSys{V: v}, c.p)
@@ -247,7 +275,12 @@ func step(v avfs.VFS, kind int, c call) {
 		qfi, _ = v.Lstat(c.q)
 	}
 	// what the operands resolve to through symbolic links is named by the call too
-	pt, _ := v.EvalSymlinks(c.p)
+	// (calls that act on the link itself name the entry below the resolved parent)
+	pt := resolved(v, c.p, followsLast(c.op))
+	qt := ""
+	if c.q != "" && c.op != "Symlink" {
+		qt = resolved(v, c.q, false)
+	}
 	// regular files below a named entry: their other names may change (link count)
 	var inside []fs.FileInfo
 	for _, n := range before {
@@ -295,7 +328,7 @@ func step(v avfs.VFS, kind int, c call) {
 		if under(n.path, c.p) || c.q != "" && under(n.path, c.q) {
 			continue
 		}
-		if pt != "" && under(n.path, pt) {
+		if pt != "" && under(n.path, pt) || qt != "" && under(n.path, qt) {
 			continue
 		}
 		if n.fi.Mode().IsRegular() && (pfi != nil && v.SameFile(n.fi, pfi) || qfi != nil && v.SameFile(n.fi, qfi)) {
